@@ -230,6 +230,12 @@ class Facts(Walker):
                 return base
             return "%s.%s(%s)" % (base, f.attr, ",".join(self.vn(a, st) for a in args if not isinstance(a, ast.Starred)))
         if isinstance(f, ast.Name):
+            if f.id == "len" and len(args) == 1:
+                inner = st.get("shape:" + args[0].id) if isinstance(args[0], ast.Name) and st.get("shape:" + args[0].id) else self.vn(args[0], st)
+                for like in ("np.zeros_like(", "np.empty_like(", "np.ones_like(", "np.full_like("):
+                    while inner.startswith(like) and inner.endswith(")") and "," not in inner[len(like):-1].split("(")[0]:
+                        inner = inner[len(like):-1]
+                return "len(%s)" % inner
             if f.id in ("float", "abs") and args:
                 return self.vn(args[0], st) if f.id == "float" else "abs(%s)" % self.vn(args[0], st)
             parts = [self.vn(a.value if isinstance(a, ast.Starred) else a, st) for a in args]
@@ -308,7 +314,11 @@ class Facts(Walker):
                 if _is_one(b) and truth and isinstance(a, ast.Call) and (self.np_name(a.func) or "").endswith("norm") and a.args:
                     self.add(st, "UNIT", self.vn(a.args[0], st))
             # sum(~(n > 0)) / any(n == 0) style reductions
-            if isinstance(test.func, ast.Name) and test.func.id in ("sum", "any") and test.args:
+            red = test.func.id if isinstance(test.func, ast.Name) else (npn.split(".")[-1] if npn else None)
+            if red is None and isinstance(test.func, ast.Attribute) and test.func.attr in ("any", "sum") and not test.args:
+                # method form:  (n == 0).any()
+                red, test = test.func.attr, ast.Call(func=ast.Name(id="any", ctx=ast.Load()), args=[test.func.value], keywords=[])
+            if red in ("sum", "any", "count_nonzero") and test.args:
                 inner = test.args[0]
                 if isinstance(inner, ast.UnaryOp) and isinstance(inner.op, ast.Invert):
                     c = inner.operand
@@ -369,6 +379,7 @@ class Facts(Walker):
     def bind(self, t, value_node, val, st, stmt):
         if isinstance(t, ast.Name):
             st.pop("b:" + t.id, None)
+            st.pop("shape:" + t.id, None)
             stale = self.stale_origin(value_node, st)
             st.pop("stale:" + t.id, None)
             if stale is not None:
@@ -416,6 +427,7 @@ class Facts(Walker):
             if isinstance(base, ast.Name):
                 if st.get("v:" + base.id) in st["C"]:
                     st["C"] = st["C"] | {new}       # storing into a complex array keeps it complex
+                st.setdefault("shape:" + base.id, st.get("v:" + base.id))      # element stores change values, never the shape
                 st["v:" + base.id] = new
             elif isinstance(base, ast.Attribute) and isinstance(base.value, ast.Name) and base.value.id == self.self_name:
                 st["s:" + base.attr] = new
@@ -542,6 +554,8 @@ class Facts(Walker):
                 if isinstance(recv, ast.Name) and recv.id == self.self_name and self.func.cls is not None:
                     m = self.func.cls.lookup(f.attr)
                     if m is not None:
+                        if m.name.startswith("_") and not m.name.startswith("__") and depth < 3:
+                            return self.private_callee_unit(m, node, st, depth)
                         return self.callee_unit(m, node, st)
                 if c is not None:
                     m = c.lookup(f.attr)
@@ -594,6 +608,28 @@ class Facts(Walker):
         ok = bool(sub.ret_info) and all(r["unit"] or r["none"] for r in sub.ret_info)
         self.unit_summaries[key] = ok
         self.unit_summaries[("unit_detail", callee.ref)] = sub.ret_info
+        return ok
+
+    def private_callee_unit(self, callee: Func, node, st, depth=0):
+        """a private helper of the same class is analysed as a continuation of the caller: its parameters carry the caller's value numbers and the
+        must-facts of the argument expressions (a unit quaternion passed in stays unit inside)"""
+        params = callee.params[1:] if callee.cls is not None and not callee.is_static else callee.params
+        seed, extra = {}, set()
+        pairs = list(zip(params, node.args)) + [(k.arg, k.value) for k in node.keywords if k.arg in params]
+        for p, a in pairs:
+            if isinstance(a, ast.Starred):
+                continue
+            seed[p] = self.vn(a, st)
+            if self.is_unit(a, st, depth + 1):
+                extra.add(("UNIT", seed[p]))
+        key = ("unit-private", callee.ref, tuple(sorted(seed.items())), frozenset(extra))
+        if key in self.unit_summaries:
+            return bool(self.unit_summaries[key])
+        self.unit_summaries[key] = False
+        sub = Facts(callee, self.prog, callbacks={}, unit_summaries=self.unit_summaries, seed=seed, seed_facts=st["F"] | frozenset(extra))
+        sub.analyse()
+        ok = bool(sub.ret_info) and all(r["unit"] or r["none"] for r in sub.ret_info)
+        self.unit_summaries[key] = ok
         return ok
 
     def is_complex(self, node, st):
